@@ -268,6 +268,35 @@ def asm_format_leg(ctx, rng, scratch, i):
         ctx.violation("asm-format-output-depends-on-hash-seed-or-interpreter", f"{outs}", {"kind": "asm-format", "asm": plain})
     else:
         ctx.count("asm-format-ok")
+    # the same command twice into the same output file: the second run leaves the same bytes
+    outp = scratch / f"af{i}.out.tpf"
+    twice = []
+    for _ in range(2):
+        cli_runs.run_asm_format([p, "-f", "TPF", "-o", outp])
+        twice.append(outp.read_bytes() if outp.exists() else None)
+    outp.unlink(missing_ok=True)
+    ctx.count("axis:asm-format-run-again-into-same-file")
+    if twice[0] != twice[1] or twice[0] is None:
+        ctx.violation("asm-format-output-depends-on-earlier-run-into-the-same-file", f"first {len(twice[0] or b'')} bytes, second {len(twice[1] or b'')} bytes", {"kind": "asm-format", "asm": plain})
+    # the same file named in different ways from different directories: every output format says the same
+    sub = scratch / f"af{i}-dir"
+    sub.mkdir(exist_ok=True)
+    named = []
+    old_cwd = os.getcwd()
+    try:
+        for cwd, arg in ((scratch, p.name), (sub, os.path.join("..", p.name)), (sub, str(p))):
+            os.chdir(cwd)
+            for fmt_ in ("STR", "REPR", "AGP"):
+                r = cli_runs.run_asm_format([arg, "-f", fmt_])
+                named.append((fmt_, r["exit_code"], r["stdout"]))
+    finally:
+        os.chdir(old_cwd)
+        sub.rmdir()
+    ctx.count("axis:asm-format-file-named-from-another-directory")
+    for fmt_ in ("STR", "REPR", "AGP"):
+        if len({x[1:] for x in named if x[0] == fmt_}) != 1:
+            ctx.violation(f"asm-format-output-depends-on-working-directory:{fmt_}", f"{[x[2][:80] for x in named if x[0] == fmt_]}", {"kind": "asm-format", "asm": plain})
+            break
     for q in files:
         q.unlink()
 
@@ -354,6 +383,8 @@ def gates(c, tier):
         "axis:working-directory-and-relative-paths": 10,
         "axis:other-content-at-the-same-path-earlier-in-process": 10,
         "asm-format-ok": 8,
+        "axis:asm-format-run-again-into-same-file": 8,
+        "axis:asm-format-file-named-from-another-directory": 8,
         "specimens-ok": 12,
         "cases:tag-noise": 20,
     }
